@@ -93,6 +93,14 @@ class World:
             gate_db(db)
         self.bp = bp = bpmod.BlockProcessor(env, db, self.daemon, notifications)
         daemon = self.daemon
+        # what the daemon's cached height was while each block was indexed (classification of F21)
+        self.adv_log = {}
+        orig_advance = bp.advance_block
+
+        def advance_block(block):
+            self.adv_log[block.height] = (block.hex_hash, daemon.cached_height())
+            return orig_advance(block)
+        bp.advance_block = advance_block
         notifications.height = daemon.height
         notifications.db_height = lambda: db.state.height
         self.loop.on_iteration = lambda _loop: self.max_db_height()
@@ -192,6 +200,20 @@ class World:
                 and not self.loop.pending_jobs()
                 and ('mempool' not in self.tasks
                      or self.mp_synced == (self.daemon.version, self.daemon.tip.height)))
+
+    def stale_block_outside_window(self, exc):
+        """F21: the processing task died with "no undo information found for height H" and the block it had
+        at H was indexed while the daemon's cached height was already more than the reorg limit above H
+        (so it was taken for buried) - the shape of the known finding; anything else is a new violation."""
+        import re
+        if type(exc).__name__ != 'ChainError':
+            return False
+        m = re.search(r'no undo information found for height (\d+)', str(exc))
+        if not m:
+            return False
+        h = int(m.group(1))
+        rec = self.adv_log.get(h)
+        return rec is not None and rec[1] is not None and h < rec[1] - self.env.reorg_limit + 1
 
     def max_db_height(self):
         if self.db.state is not None:
